@@ -56,22 +56,30 @@ theorem goPickSeeds_lt (bs : List Box) (h2 : 2 ≤ bs.length) :
   unfold goPickSeeds
   simp only
   apply foldl_inv _ (fun acc : Rat × Nat × Nat => acc.2.1 < acc.2.2 ∧ acc.2.2 < bs.length)
-    (fun p : Nat × Nat => p.1 < p.2)
+    (fun p : Box × Nat => p.2 < bs.length)
   · intro acc p hacc hp
-    split
-    · rename_i b1 b2 hb1 hb2
+    apply foldl_inv _ (fun acc : Rat × Nat × Nat => acc.2.1 < acc.2.2 ∧ acc.2.2 < bs.length)
+      (fun q : Box × Nat => q.2 + p.2 + 1 < bs.length)
+    · intro acc' q hacc' hq
       split_ifs
-      · refine ⟨hp, ?_⟩
-        by_contra hc
-        simp only [not_lt] at hc
-        rw [List.getElem?_eq_none hc] at hb2; cases hb2
-      · exact hacc
+      · exact ⟨by simp; omega, by simpa using hq⟩
+      · exact hacc'
     · exact hacc
+    · intro q hq
+      obtain ⟨e2, j⟩ := q
+      have := List.mem_zipIdx_iff_getElem?.mp hq
+      have hj : j < (bs.drop (p.2 + 1)).length := by
+        by_contra hc
+        rw [List.getElem?_eq_none (by omega)] at this; cases this
+      simp only [List.length_drop] at hj
+      simp only; omega
   · exact ⟨by simp, by simp; omega⟩
   · intro p hp
-    simp only [List.mem_flatMap, List.mem_range, List.mem_map, List.mem_filter, decide_eq_true_eq] at hp
-    obtain ⟨i, _, j, ⟨_, hij⟩, rfl⟩ := hp
-    exact hij
+    obtain ⟨e1, i⟩ := p
+    have := List.mem_zipIdx_iff_getElem?.mp hp
+    by_contra hc
+    simp only [not_lt] at hc
+    rw [List.getElem?_eq_none hc] at this; cases this
 
 /-- the model's heuristics (the exact transcription of the Go code) are in range -/
 theorem goHeur_inRange : goHeur.InRange where
